@@ -155,7 +155,7 @@ def accessor_oracle(sess, op):
         p.violate("session:posterior:lengths", f"after {op}: posterior() returned {len(x)} rows for a history of {N} particles")
         return
     for i in range(len(x)):
-        if not (f(x[i]) + cfg["shift"] == ll[i]) or (want_blobs and not (targets.blob_of(x[i]) == float(np.ravel(out[3][i])[0]))):
+        if not (f(x[i]) + cfg["shift"] == ll[i]) or (want_blobs and not (targets.blob_expected(x[i], cfg) == float(np.ravel(out[3][i])[0]))):
             p.violate("session:posterior:record", f"after {op}: posterior() row {i} is not a whole record")
             break
     if np.max(np.abs(np.asarray(w) - w_ref)) > 1e-9:
@@ -244,7 +244,7 @@ def run_duo(case, make_monitors):
     seqs = [tuple(case["only"])] if case.get("only") else list(duo_sequences(case["depth"]))[case["shard"][0]::case["shard"][1]]
     for seq in seqs:
         A = Probe(cfg, base=case["base"], monitors=make_monitors(), max_iters=10 ** 6)
-        B = Probe(cfg, base=case["base"] + 1, monitors=make_monitors(), max_iters=10 ** 6)
+        B = Probe(dict(cfg, **case.get("cfg_b", {})), base=case["base"] + 1, monitors=make_monitors(), max_iters=10 ** 6)  # B is constructed last
         probes = {"a": A, "b": B}
         opno = [0]
         for q in (A, B):
@@ -293,7 +293,8 @@ def run_duo(case, make_monitors):
                 if key in seen:
                     continue
                 seen.add(key)
-                res.violate("duo:" + key, f"sampler {name.upper()} of two samplers alive in one process: " + msg + f" [interleaving after 2 iterations each: {' '.join(seq)}; cfg={cfg}]", cc)
+                res.violate("duo:" + key, f"sampler {name.upper()} of two samplers alive in one process: " + msg + f" [interleaving after 2 iterations each: {' '.join(seq)}; cfg={cfg}"
+                            + (f"; sampler B differs in {case['cfg_b']}" if case.get("cfg_b") else "") + "]", cc)
         res.outcome(("duo", tuple(sorted((k, repr(v)) for k, v in cfg.items())), seq), nontrivial=True)
     res.sample({"cfg": cfg, "interleavings": len(seqs), "example": list(seqs[len(seqs) // 2]) if seqs else None}, cap=1)
     return res
